@@ -12,6 +12,9 @@ Streams
                  with identity, the caller's in-place mutations are operations): final contents of core.extra, of
                  every logger's bound dict and of every record's extra, model vs the real objects
   mprog          programmes that deep-copy loggers (several cores, one ContextVar) against Context/Multi.lean
+  sinktasks      coroutine sinks (loop=None / loop=<loop>) whose bodies use contextualize() and log re-entrantly;
+                 several sink tasks (created by the LIBRARY, one per message) interleaved step by step; judged by Spec
+                 and by the Lean model through the equivalent programme (sink task = context copied at the emission)
 Every delivered record / patcher call is compared (a) with an independent executable specification of
 the property (`Spec`, below: layers and *open blocks*, no tokens) – the direct oracle – and (b) with
 the Lean model (Context/Model.lean through drivers/C12.lean) – the correspondence.  After EVERY
@@ -1501,6 +1504,169 @@ def run_cv(ops):
     return " ".join(out)
 
 
+# ============================================================================ tasks the LIBRARY creates: coroutine sinks
+def gen_sink_scenario(rng):
+    """A coroutine sink (added with loop=None or with the documented loop=<loop>) whose BODY uses
+    logger.contextualize() and logs (re-entrantly, into another handler); several sink tasks – one per emitted
+    message – interleaved step by step in a PRNG-chosen order, while the emitter enters / leaves blocks of its own.
+    Returned as the EQUIVALENT programme in the ordinary trace format (a sink task = a context spawned, with a copy
+    of the emitter's context, at the moment of the emission), so that Spec and the Lean model judge it."""
+    st = {"serial": 0}
+    njobs = rng.range(2, 4)
+    trace = [{"c": 0, "op": "add"}]
+    for j in range(1, njobs + 1):          # the audit loggers: logger #j = logger.bind(k5=1000+j)
+        trace.append({"c": 0, "op": "bind", "l": 0, "kw": [[NKEYS, 1000 + j]]})
+    # per context: its remaining steps
+    todo = {0: []}
+    depth0 = 0
+    for j in range(1, njobs + 1):
+        if rng.chance(40) and depth0 < 2:
+            todo[0].append({"op": "enter", "kw": gen_kw(rng, st, 1, 2), "style": "with"})
+            depth0 += 1
+        todo[0].append({"op": "spawn", "copy": True, "new": j})
+        if depth0 and rng.chance(40):
+            todo[0].append({"op": "exit"})
+            depth0 -= 1
+        steps = []
+        for _ in range(rng.range(1, 2)):
+            steps.append({"op": "enter", "kw": gen_kw(rng, st, 1, 2), "style": "with"})
+            if rng.chance(80):
+                steps.append({"op": "log", "l": j, "kw": gen_kw(rng, st, 0, 1), "via": "info"})
+        for _ in range(sum(1 for x in steps if x["op"] == "enter")):
+            steps.append({"op": "exit"})
+            if rng.chance(70):
+                steps.append({"op": "log", "l": j, "kw": [], "via": "info"})
+        steps.append({"op": "end"})
+        todo[j] = steps
+    todo[0] += [{"op": "exit"}] * depth0
+    todo[0] += [{"op": "log", "l": 0, "kw": [], "via": "info"}]
+    started = {0}
+    while any(todo[c] for c in started):
+        c = rng.choice(sorted(x for x in started if todo[x]))
+        op = dict(todo[c].pop(0))
+        op["c"] = c
+        trace.append(op)
+        if op["op"] == "spawn":
+            started.add(op["new"])
+    trace.append({"c": 0, "op": "end"})
+    return {"trace": trace, "explicit_loop": rng.chance(50)}
+
+
+def _two_sink_tasks(explicit):
+    """enter#1, enter#2, log#1, exit#1, log#1, log#2, exit#2, log#2, the emitter logs"""
+    return {"explicit_loop": explicit, "trace": [
+        {"c": 0, "op": "add"}, {"c": 0, "op": "bind", "l": 0, "kw": [[NKEYS, 1001]]},
+        {"c": 0, "op": "bind", "l": 0, "kw": [[NKEYS, 1002]]},
+        {"c": 0, "op": "spawn", "copy": True, "new": 1}, {"c": 0, "op": "spawn", "copy": True, "new": 2},
+        {"c": 1, "op": "enter", "kw": [[0, 1]], "style": "with"}, {"c": 2, "op": "enter", "kw": [[0, 2]], "style": "with"},
+        {"c": 1, "op": "log", "l": 1, "kw": [], "via": "info"}, {"c": 1, "op": "exit"},
+        {"c": 1, "op": "log", "l": 1, "kw": [], "via": "info"}, {"c": 2, "op": "log", "l": 2, "kw": [], "via": "info"},
+        {"c": 2, "op": "exit"}, {"c": 2, "op": "log", "l": 2, "kw": [], "via": "info"},
+        {"c": 1, "op": "end"}, {"c": 2, "op": "end"},
+        {"c": 0, "op": "log", "l": 0, "kw": [], "via": "info"}, {"c": 0, "op": "end"}]}
+
+
+SINK_CORPUS = [_two_sink_tasks(False), _two_sink_tasks(True)]
+
+
+def run_sink_scenario(sc):
+    """-> events [("d", ctx, 0, extra)] observed by the collecting sink"""
+    from loguru._logger import Core, Logger
+    trace, explicit = sc["trace"], sc["explicit_loop"]
+    events = []
+    cur = [0]
+
+    async def main():
+        loop = asyncio.get_running_loop()
+        lg0 = Logger(core=Core(), exception=None, depth=0, record=False, lazy=False, colors=False, raw=False,
+                     capture=True, patchers=[], extra={})
+        loggers = [lg0]
+        turn, done = {}, {}
+        for i, op in enumerate(trace):
+            turn[i], done[i] = loop.create_future(), loop.create_future()
+        mine = {}
+        for i, op in enumerate(trace):
+            mine.setdefault(op["c"], []).append(i)
+
+        def collect(message):
+            events.append(("d", cur[0], 0, Run.canon({k: v for k, v in message.record["extra"].items()})))
+
+        async def body(c):
+            cms = []
+            for i in mine.get(c, []):
+                await turn[i]
+                op = trace[i]
+                cur[0] = c
+                k = op["op"]
+                if k == "enter":
+                    cm = lg0.contextualize(**{key_name(a): b for a, b in op["kw"]})
+                    cm.__enter__()
+                    cms.append(cm)
+                elif k == "exit":
+                    cms.pop().__exit__(None, None, None)
+                elif k == "log":
+                    loggers[op["l"]].info("m", **{key_name(a): b for a, b in op["kw"]})
+                elif k == "bind":
+                    loggers.append(loggers[op["l"]].bind(**{key_name(a): b for a, b in op["kw"]}))
+                elif k == "add":
+                    lg0.add(collect, filter=lambda r: "sinkjob" not in r["extra"], format="{message}", level=0,
+                            colorize=False, catch=False)
+
+                    async def sink(message):
+                        await body(message.record["extra"]["sinkjob"])
+                    kw = {"loop": loop} if explicit else {}
+                    lg0.add(sink, filter=lambda r: "sinkjob" in r["extra"], format="{message}", level=0,
+                            colorize=False, catch=False, **kw)
+                elif k == "spawn":
+                    # the emission: the library creates the task of the coroutine sink for this message
+                    lg0.bind(sinkjob=op["new"]).info("job")
+                done[i].set_result(None)
+
+        main_task = loop.create_task(body(0), context=contextvars.Context())
+        for i in range(len(trace)):
+            turn[i].set_result(None)
+            await asyncio.wait_for(done[i], TIMEOUT)
+        await asyncio.wait_for(main_task, TIMEOUT)
+        await asyncio.wait_for(lg0.complete(), TIMEOUT)
+        lg0.remove()
+
+    box = {}
+
+    def target():
+        try:
+            asyncio.run(main())
+        except BaseException as e:  # noqa
+            box["exc"] = e
+    t = threading.Thread(target=target, daemon=True)
+    t.start()
+    t.join(TIMEOUT * 3)
+    if t.is_alive():
+        raise Hang("coroutine-sink scenario did not finish")
+    if "exc" in box:
+        if isinstance(box["exc"], (asyncio.TimeoutError, Exception)) and not isinstance(box["exc"], (ImportError, AttributeError, NameError)):
+            events.append(("e", cur[0], type(box["exc"]).__name__))
+        else:
+            raise box["exc"]
+    return events
+
+
+def judge_sink_scenario(sc):
+    spec = Spec()
+    for op in sc["trace"]:
+        spec.apply(op)
+    got = run_sink_scenario(sc)
+    if got != spec.expected:
+        i = 0
+        while i < len(got) and i < len(spec.expected) and got[i] == spec.expected[i]:
+            i += 1
+        return ("record #%d logged by the body of a coroutine sink (loop=%s): the property requires %r, observed %r "
+                "(ctx 0 = the emitting task, ctx j = the task the library created for the j-th message; each sink "
+                "task enters its own contextualize() blocks, interleaved with the others)"
+                % (i, "<loop>" if sc["explicit_loop"] else "None",
+                   spec.expected[i] if i < len(spec.expected) else None, got[i] if i < len(got) else None)), got
+    return None, got
+
+
 # ============================================================================ entry points
 def load_corpus():
     d = os.path.join(core.VERIF, "corpus", "C12")
@@ -1665,6 +1831,25 @@ def run(ctx):
 
     flush()
 
+    # ---- tasks the library creates: coroutine sinks whose bodies use contextualize() and log
+    sink_cases = []
+    nrep = 0
+    nsink = ctx.n(60, 1000) * boost
+    for i in range(nsink + len(SINK_CORPUS)):
+        sc = SINK_CORPUS[i] if i < len(SINK_CORPUS) else gen_sink_scenario(rng.fork("sink%d" % i))
+        problem, got = judge_sink_scenario(sc)
+        ctx.case(("sinktasks", sc["explicit_loop"], prog_line(sc["trace"])), nontrivial=True)
+        ctx.stat("sink_scenarios:loop=%s" % ("explicit" if sc["explicit_loop"] else "None"))
+        ctx.stat("sink_tasks", sum(1 for o in sc["trace"] if o["op"] == "spawn"))
+        sink_cases.append((sc, got))
+        if problem:
+            ctx.stat("problems:sinktasks")
+            if nrep < 2:
+                nrep += 1
+                ctx.violation("contextualize() values leak between the tasks of a coroutine sink: " + problem,
+                              {"kind": "sinktasks", "scenario": sc, "line": prog_line(sc["trace"])}, kind="oracle")
+    sink_lines = [prog_line(sc["trace"]) for sc, _ in sink_cases]
+
     # ---- cv stream
     cv_cases = []
     for i in range(ctx.n(500, 20000)):
@@ -1674,7 +1859,21 @@ def run(ctx):
 
     hcases = [res for res in cases if res.get("hobs") is not None and not any(e[0] == "e" for e in res["events"])]
     hlines = [res["hline"] for res in hcases]
-    out = drv.run(lines + cv_lines + hlines)
+    out = drv.run(lines + cv_lines + hlines + sink_lines)
+    badsink = 0
+    for (sc, got), o in zip(sink_cases, out[len(lines) + len(cv_lines) + len(hlines):]):
+        mev, _mlg, _mfin = parse_model(o)
+        ctx.traces_validated += 1
+        if mev != got:
+            badsink += 1
+            ctx.stat("disagreements:sinktasks")
+            if badsink <= 2:
+                ctx.broke("correspondence Context.run (sink tasks)", "%s\nmodel %r\nimplementation %r"
+                          % (prog_line(sc["trace"]), mev, got))
+                ctx.violation("implementation and model disagree on a coroutine-sink scenario: model %r, "
+                              "implementation %r" % (mev, got),
+                              {"kind": "sinktasks", "scenario": sc, "line": prog_line(sc["trace"])},
+                              kind="correspondence")
     bad = 0
     for res, o in zip(cases, out):
         mev, mlg, mfin = parse_model(o)
@@ -1742,6 +1941,13 @@ def max_depth(trace):
 
 def replay(ctx, rep):
     r = rep["replay"]
+    if r.get("kind") == "sinktasks":
+        problem, got = judge_sink_scenario(r["scenario"])
+        print("scenario:", prog_line(r["scenario"]["trace"]), "explicit loop:", r["scenario"]["explicit_loop"])
+        print("observed:", got)
+        print(problem or "no disagreement with the property")
+        print("REPRODUCED" if problem else "not reproduced")
+        return 1 if problem else 0
     trace, mode = r["trace"], r["mode"]
     out = None
     try:
